@@ -17,7 +17,7 @@ sid = sys.argv[2] if len(sys.argv) > 2 and not sys.argv[2].startswith("--") else
 checks = None
 if "--checks" in sys.argv:
     checks = sys.argv[sys.argv.index("--checks") + 1].split()
-W = "/tmp/seed/" + pid
+W = os.environ.get("SEED_DIR", "/tmp/seed") + "/" + pid
 env = "CARGO_TARGET_DIR=%s/target CARGO_NET_OFFLINE=true" % W
 rc, diff = sh("git diff -- src include Cargo.toml", cwd=W)
 if not diff.strip():
@@ -32,10 +32,10 @@ out["ran"].append({"cmd": "cargo test --offline --workspace --lib --bins ; cargo
 rc_d, o = sh(env + " cargo test --offline --test seeded_demo 2>&1 | grep -E '^test |test result' | head -8", cwd=W)
 demo_fails = "FAILED" in o or "failed" in o
 out["ran"].append({"cmd": "cargo test --offline --test seeded_demo (with the change)", "result": o.strip()[:400], "fails_as_required": demo_fails})
-open("/tmp/seed/%s.eval.patch" % pid, "w").write(diff)
+open(W + ".eval.patch", "w").write(diff)
 sh("git checkout -- src include Cargo.toml", cwd=W)
 rc_b, o = sh(env + " cargo test --offline --test seeded_demo 2>&1 | grep -E '^test |test result' | head -8", cwd=W)
-sh("git apply /tmp/seed/%s.eval.patch" % pid, cwd=W)
+sh("git apply %s.eval.patch" % W, cwd=W)
 demo_passes_clean = "test result: ok" in o and "FAILED" not in o
 out["ran"].append({"cmd": "cargo test --offline --test seeded_demo (change stashed)", "result": o.strip()[:400], "passes_as_required": demo_passes_clean})
 out["confirmed"] = bool(suite_ok and demo_fails and demo_passes_clean)
